@@ -355,6 +355,7 @@ static void run_server_mode()
         if (c.oversize && !closed)
           sim::fail("c15-unbounded-buffer", "%s were accepted without the connection being closed", e.hostileWhat.c_str());
         hostileRejected++;
+        { std::string cn = "c15.hostile_rejected." + e.hostileWhat.substr(0, e.hostileWhat.find('\'')); sim::count(cn.c_str(), 1); }
         continue;
       }
       // a valid request that precedes a hostile one on the same connection must still be framed exactly
